@@ -19,11 +19,11 @@ import z3
 from . import zpoly as zp
 
 
-class Undecided(Exception):
+class Undecided(BaseException):
     """solver unknown / construct outside the exact model: the instance is undecided, never a violation"""
 
 
-class Infeasible(Exception):
+class Infeasible(BaseException):
     pass
 
 
@@ -1021,16 +1021,20 @@ class World(object):
                     self.eqs.append((i, zp.var(list(e1)[0]), 1))
 
     # ---- obligations
-    def must(self, cond):
-        """True iff the path condition implies cond; 'unknown' raises Undecided"""
+    def must(self, cond, fresh=False):
+        """True iff the path condition implies cond; 'unknown' raises Undecided.
+        fresh=True: polynomial obligation - skip the incremental core (it answers unknown after its timeout and is
+        slower on every later query once it has seen nonlinear terms) and ask a fresh solver (nlsat) directly"""
         cond = z3.simplify(cond)
         if z3.is_true(cond):
             return True
-        self.solver.set('timeout', self.QUICK_MS)
-        try:
-            r = self._check(z3.Not(cond))
-        finally:
-            self.solver.set('timeout', self.TIMEOUT_MS)
+        r = z3.unknown
+        if not fresh:
+            self.solver.set('timeout', self.QUICK_MS)
+            try:
+                r = self._check(z3.Not(cond))
+            finally:
+                self.solver.set('timeout', self.TIMEOUT_MS)
         if r == z3.unsat:
             return True
         if r == z3.sat:
